@@ -43,6 +43,8 @@ InitState ==
     reg |-> [s \in Sid |-> {}], fpv |-> [o \in Obj |-> NoMemo], fpt |-> [t \in Tab |-> NoMemo],
     cmap |-> [t \in Tab |-> <<>>],
     uown |-> {},           \* ghost: vectors the program created as standalone objects (never a table's)
+    everobs |-> {},        \* ghost: <<object, family>> pairs: a read-only operation of that family has been applied to the
+                           \* object before (keeps apart the histories in which an implementation might have cached something)
     everfp |-> {} ]        \* ghost: objects whose fingerprint() has EVER been called (C16: "whether or not it had
                            \* been called, and cached, earlier") - keeps such histories apart in the explored graph
 
@@ -94,7 +96,8 @@ Settle(S0) ==
         !.fpt = [t \in Tab |-> IF t \in L THEN S0.fpt[t] ELSE NoMemo],
         !.cmap = [t \in Tab |-> IF t \in L THEN S0.cmap[t] ELSE <<>>],
         !.uown = S0.uown \cap L,
-        !.everfp = S0.everfp \cap L ]
+        !.everfp = S0.everfp \cap L,
+        !.everobs = {p \in S0.everobs : p[1] \in L} ]
 
 Out(S, r) == [st |-> Settle(S), res |-> r]
 Same(S, r) == [st |-> S, res |-> r]
@@ -251,6 +254,14 @@ ReadFpT(S, t) ==
                         !.everfp = @ \cup {t} \cup ColumnsOf(S, t)], "Ok")
     ELSE Same([S EXCEPT !.fpv = ColumnMemos(S, t), !.everfp = @ \cup {t} \cup ColumnsOf(S, t)], "Ok")
 FpResultT(S, t) == IF S.fpt[t] = NoMemo THEN TableContents(S, t) ELSE S.fpt[t][1]
+
+(* ------------------------------------------------------------------ read-only operations
+   Every value-returning operation (unary / comparison / reductions / isna-dropna-fillna / sort / aggregate /
+   window / join / selection / iteration / repr / fingerprint / dir) is a FUNCTION OF THE CURRENT CONTENTS, NAMES
+   AND DTYPES of its operands and changes nothing (C01, and the "whatever happened before" of C05-C14, C16-C20).
+   In the model an observation is a stuttering step on everything but the ghost; the binding checks the result
+   against the same operation applied to an object freshly rebuilt from the current plain values.            *)
+Observe(S, x, fam) == Same([S EXCEPT !.everobs = @ \cup {<<x, fam>>}], "Ok")
 
 (* ------------------------------------------------------------------ names *)
 (* v.name = nm through a live view or a held vector: marks it wild *)
